@@ -348,23 +348,7 @@ func runG(t *testing.T, ch *vs.Choices, prop, tier string, render bool) *vs.RunO
 			q.Tasks[ps.t].Cmds[ps.c].Fail = code
 			o := runGOne(t, ch, q, prop, render)
 			o.Hit("fault_enumeration:failing_position")
-			if agg == nil {
-				agg = o
-			} else {
-				agg.Steps += o.Steps
-				agg.Hash = agg.Hash*1099511628211 ^ o.Hash
-				agg.NonTrivial = agg.NonTrivial || o.NonTrivial
-				for k, v := range o.Reach {
-					agg.Reach[k] += v
-				}
-				agg.Foreign = append(agg.Foreign, o.Foreign...)
-				if len(o.Violations) > 0 && len(agg.Violations) == 0 {
-					agg.Violations, agg.Rendered = o.Violations, o.Rendered
-				}
-				if o.HarnessError != "" {
-					agg.HarnessError = o.HarnessError
-				}
-			}
+			agg = mergeRunOut(agg, o)
 		}
 		if agg != nil {
 			agg.Hit("fault_enumeration:programs")
@@ -372,7 +356,60 @@ func runG(t *testing.T, ch *vs.Choices, prop, tier string, render bool) *vs.RunO
 		}
 		return runGOne(t, ch, p, prop, render)
 	}
+	if prop == "C14" && ch.Bool(1, 4) {
+		// cancellation-point enumeration: one program, executed once per event index k = 1, 2, ... at which the
+		// caller's context is cancelled, until the run ends before the k-th event (each execution under its own
+		// drawn schedule)
+		b.Cancel = false
+		p := genG(ch, b)
+		maxK := 10
+		if tier == "thorough" {
+			maxK = 60
+		}
+		var agg *vs.RunOut
+		for k := 1; k <= maxK; k++ {
+			q := cloneProg(p)
+			q.CancelAtEvent = k
+			o := runGOne(t, ch, q, prop, render)
+			fired := o.Reach["fault:caller_cancel"] > 0
+			if fired {
+				o.Hit("fault_enumeration:cancel_point")
+			}
+			agg = mergeRunOut(agg, o)
+			if !fired {
+				agg.Hit("fault_enumeration:programs_exhausted")
+				break
+			}
+		}
+		agg.Hit("fault_enumeration:programs")
+		return agg
+	}
 	return runGOne(t, ch, genG(ch, b), prop, render)
+}
+
+// mergeRunOut folds one execution of an enumeration into the run's result (first violation wins).
+func mergeRunOut(agg, o *vs.RunOut) *vs.RunOut {
+	if agg == nil {
+		return o
+	}
+	agg.Steps += o.Steps
+	agg.SimSeconds += o.SimSeconds
+	agg.Hash = agg.Hash*1099511628211 ^ o.Hash
+	agg.NonTrivial = agg.NonTrivial || o.NonTrivial
+	for k, v := range o.Reach {
+		agg.Reach[k] += v
+	}
+	agg.Foreign = append(agg.Foreign, o.Foreign...)
+	if len(o.Violations) > 0 && len(agg.Violations) == 0 {
+		agg.Violations, agg.Rendered = o.Violations, o.Rendered
+	}
+	if o.HarnessError != "" {
+		agg.HarnessError = o.HarnessError
+	}
+	if o.Inconclusive != "" {
+		agg.Inconclusive = o.Inconclusive
+	}
+	return agg
 }
 
 func cloneProg(p *gProg) *gProg {
